@@ -220,7 +220,8 @@ fn model(bits: usize, op: Op, args: &[V]) -> Expect {
             let a = big(args[0].limbs());
             let b = args[1].as_n() as u64;
             if b < 2 {
-                return is(V::Panic).nt(true);
+                // the property quantifies over bases in [2, 2^64); the digit iterators for smaller bases are outside it
+                return dont_care();
             }
             let mut d = digits_le(&a, b);
             if op == to_base_be {
@@ -236,7 +237,8 @@ fn model(bits: usize, op: Op, args: &[V]) -> Expect {
             let b = args[1].as_n() as u64;
             let k = args[2].as_n() as usize;
             if b < 2 {
-                return is(V::Panic).nt(true);
+                // the property quantifies over bases in [2, 2^64); the digit iterators for smaller bases are outside it
+                return dont_care();
             }
             if a.is_zero() {
                 // zero may be rendered as no digit or as one zero digit (see to_base_le)
